@@ -76,126 +76,156 @@ CallN(f, args) == Op("call", "", <<f>> \o args)
 Hole(sort, d, p, w, fl) == N("hole", sort, d, p, w, fl)
 
 -----------------------------------------------------------------------------
-(* The grammar of the program family P01 *)
+(* The grammar of the program family P01.
+
+   Expression holes are typed by intent -- I (an int is wanted), Q (a sequence is wanted), A (anything; also
+   truth tests) -- so that programs fail only where the *arguments* have the wrong type: every name (a, b, x, y, g,
+   parameters, attributes) may stand in any hole.  A hole carries its depth budget, the readable and writable names
+   of its scope, and flags: scope kind (f, h, lam, c class body, m method), loop, ret, comp, H (h is callable),
+   C (class C and instance o exist). *)
 
 FNames == <<"a", "b", "x", "y", "g">>
 HNames == FNames \o <<"p", "q">>
 MNames == FNames \o <<"p">>
 
-BinOps == IF Wide THEN {"+", "-", "*", "//", "<", "==", "in"} ELSE {"+", "*", "<", "in"}
-AugOps == IF Wide THEN {"+", "-", "*"} ELSE {"+", "*"}
-Bi1 == IF Wide THEN {"len", "abs", "sum", "sorted", "any", "all", "bool", "int", "tuple", "list", "min", "max", "range"}
-       ELSE {"len", "abs", "sum", "sorted", "any", "int", "tuple", "list", "max"}
-Bi2 == {"min", "max"}
-GenBi == IF Wide THEN {"sum", "any", "all", "tuple", "list", "sorted", "min", "max"} ELSE {"sum", "all", "tuple", "sorted"}
-IsTypes == IF Wide THEN {"int", "str", "tuple", "list", "bool"} ELSE {"int", "bool"}
-Consts == IF Wide THEN {IntL(0), IntL(1), IntL(2), StrL("b"), NoneL, Op("tuple", "", <<IntL(1), StrL("a")>>)}
-          ELSE {IntL(1), StrL("b")}
-
 HasFlag(h, f) == Has(h.a, f)
 
-Atoms(h) ==
-    {Nm(x) : x \in Range(h.p)} \cup Consts
+Tuple0 == Op("tuple", "", <<>>)
+ConstT == Op("tuple", "", <<IntL(1), StrL("a")>>)
+IsTypes == IF Wide THEN {"int", "str", "tuple", "list", "bool"} ELSE {"int", "tuple"}
+
+(* atoms of unknown type: names and attributes *)
+NameAtoms(h) ==
+    {Nm(x) : x \in Range(h.p)}
     \cup (IF HasFlag(h, "C") THEN {Op("attr", "v", <<Nm("o")>>), Op("attr", "w", <<Nm("o")>>), Op("attr", "v", <<Nm("C")>>)} ELSE {})
     \cup (IF HasFlag(h, "m") THEN {Op("attr", "v", <<Nm("self")>>), Op("attr", "w", <<Nm("self")>>)} ELSE {})
 
-Compounds(h) ==
-    LET E1 == Hole("E", h.i - 1, h.p, h.w, h.a)
-        \* bodies of lambdas and comprehension parts
-        LamBody == Hole("E", h.i - 1, h.p \o <<"p">>, <<>>, <<"lam">>)
-        Elt == Hole("E", h.i - 1, h.p \o <<"j">>, IF HasFlag(h, "c") THEN <<>> ELSE h.w, h.a \o <<"comp">>)
-        Iter == Hole("E", h.i - 1, h.p, <<>>, h.a)         \* no walrus in the iterable of a comprehension
-        Comp(kind, elt, cond) == N("comp", kind, 0, <<"j">>, <<>>, <<elt, Iter, cond>>)
-        Conds == {TrueL, Elt}
-    IN  {Op("bin", o, <<E1, E1>>) : o \in BinOps}
-        \cup {Op("not", "", <<E1>>), Op("neg", "", <<E1>>), Op("and", "", <<E1, E1>>), Op("or", "", <<E1, E1>>),
-              Op("cond", "", <<E1, E1, E1>>), Op("tuple", "", <<E1, E1>>), Op("tuple", "", <<E1>>),
-              Op("list", "", <<E1, E1>>), Op("sub", "", <<E1, E1>>), Op("log", "", <<E1>>),
-              Op("attr", "w", <<E1>>)}
-        \cup {Op("walrus", n, <<E1>>) : n \in Range(h.w)}
-        \cup {CallN(Nm(b), <<E1>>) : b \in Bi1}
-        \cup {CallN(Nm(b), <<E1, E1>>) : b \in Bi2}
-        \cup {CallN(Nm("isinstance"), <<E1, Nm(ty)>>) : ty \in IsTypes}
-        \cup {CallN(N("lambda", "", 0, <<"p">>, <<>>, <<LamBody>>), <<E1>>)}
-        \cup (IF HasFlag(h, "comp") THEN {} ELSE
-                {Comp("list", Elt, c) : c \in Conds}
-                \cup {CallN(Nm(b), <<Comp("gen", Elt, c)>>) : b \in GenBi, c \in Conds}
-                \cup {Comp("dict", Op("pair", "", <<Elt, Elt>>), TrueL),
-                      CallN(Nm("sorted"), <<Comp("set", Elt, TrueL)>>),
-                      CallN(Nm("len"), <<Comp("set", Elt, TrueL)>>),
-                      \* closures created in a comprehension share the iteration variable
-                      Comp("list", N("lambda", "", 0, <<>>, <<>>, <<Nm("j")>>), TrueL)})
-        \cup (IF HasFlag(h, "H") THEN {CallN(Nm("h"), <<E1>>), CallN(Nm("h"), <<E1, E1>>), CallN(Nm("h"), <<>>)} ELSE {})
-        \cup (IF HasFlag(h, "C") THEN {CallN(Op("attr", "m", <<Nm("o")>>), <<E1>>), Op("attr", "u", <<Nm("o")>>)} ELSE {})
-
-EProds(h) == IF h.i <= 0 THEN Atoms(h) ELSE Atoms(h) \cup Compounds(h)
+EProds(h) ==
+    LET d == h.i
+        E(s) == Hole(s, d - 1, h.p, h.w, h.a)
+        I == E("I")
+        Q == E("Q")
+        A == E("A")
+        W == Range(h.w)
+        incomp == HasFlag(h, "comp")
+        \* parts of comprehensions: the element sees the iteration variable, the iterable cannot contain :=
+        El(s) == Hole(s, d - 1, h.p \o <<"j">>, IF HasFlag(h, "c") THEN <<>> ELSE h.w, h.a \o <<"comp">>)
+        It == Hole("Q", d - 1, h.p, <<>>, h.a)
+        Comp(kind, elt, cond) == N("comp", kind, 0, <<"j">>, <<>>, <<elt, It, cond>>)
+        Conds == IF Wide THEN {TrueL, El("A")} ELSE {TrueL}
+        Lam(s) == CallN(N("lambda", "", 0, <<"p">>, <<>>, <<Hole(s, d - 1, h.p \o <<"p">>, <<>>, <<"lam">>)>>), <<A>>)
+        UserCalls == (IF HasFlag(h, "H") THEN {CallN(Nm("h"), <<A>>), CallN(Nm("h"), <<A, A>>)}
+                                              \cup (IF Wide THEN {CallN(Nm("h"), <<>>)} ELSE {}) ELSE {})
+                     \cup (IF HasFlag(h, "C") THEN {CallN(Op("attr", "m", <<Nm("o")>>), <<A>>)} ELSE {})
+    IN  CASE h.s = "I" ->
+               {IntL(0), IntL(1), IntL(2)} \cup NameAtoms(h)
+               \cup (IF d <= 0 THEN {} ELSE
+                     {Op("bin", o, <<I, I>>) : o \in {"+", "-", "*", "//"}}
+                     \cup {Op("neg", "", <<I>>), Op("cond", "", <<A, I, I>>), Op("log", "", <<I>>), Op("sub", "", <<Q, I>>),
+                           CallN(Nm("len"), <<Q>>), CallN(Nm("abs"), <<I>>), CallN(Nm("int"), <<A>>), CallN(Nm("sum"), <<Q>>),
+                           CallN(Nm("min"), <<I, I>>), CallN(Nm("max"), <<I, I>>), CallN(Nm("max"), <<Q>>), Lam("I")}
+                     \cup {Op("walrus", n, <<I>>) : n \in W}
+                     \cup UserCalls
+                     \cup (IF incomp THEN {} ELSE
+                           {CallN(Nm("sum"), <<Comp("gen", El("I"), c)>>) : c \in Conds}
+                           \cup {CallN(Nm("len"), <<Comp("set", El("A"), TrueL)>>), CallN(Nm("min"), <<Comp("gen", El("I"), TrueL)>>)}))
+          [] h.s = "Q" ->
+               {Tuple0, ConstT, StrL("b")} \cup NameAtoms(h)
+               \cup (IF d <= 0 THEN {} ELSE
+                     {Op("tuple", "", <<A, A>>), Op("tuple", "", <<A>>), Op("list", "", <<A, A>>), Op("bin", "+", <<Q, Q>>),
+                      Op("bin", "*", <<Q, I>>), Op("cond", "", <<A, Q, Q>>), Op("log", "", <<Q>>),
+                      CallN(Nm("tuple"), <<Q>>), CallN(Nm("list"), <<Q>>), CallN(Nm("sorted"), <<Q>>), CallN(Nm("range"), <<I>>)}
+                     \cup {Op("walrus", n, <<Q>>) : n \in W}
+                     \cup (IF incomp THEN {} ELSE
+                           {Comp("list", El("A"), c) : c \in Conds}
+                           \cup {CallN(Nm(b), <<Comp("gen", El("A"), c)>>) : b \in {"tuple", "list", "sorted"}, c \in Conds}
+                           \cup {Comp("dict", Op("pair", "", <<El("A"), El("A")>>), TrueL),
+                                 CallN(Nm("sorted"), <<Comp("set", El("A"), TrueL)>>),
+                                 \* closures created in a comprehension share the iteration variable
+                                 Comp("list", N("lambda", "", 0, <<>>, <<>>, <<Nm("j")>>), TrueL),
+                                 Comp("list", CallN(N("lambda", "", 0, <<>>, <<>>, <<Nm("j")>>), <<>>), TrueL)}))
+          [] h.s = "A" ->
+               {NoneL, IntL(1), StrL("b")} \cup NameAtoms(h)
+               \cup (IF d <= 0 THEN {} ELSE
+                     {Hole("I", d, h.p, h.w, h.a), Hole("Q", d, h.p, h.w, h.a),
+                      Op("bin", "<", <<I, I>>), Op("bin", "<", <<A, A>>), Op("bin", "==", <<A, A>>), Op("bin", "in", <<A, Q>>),
+                      Op("not", "", <<A>>), Op("and", "", <<A, A>>), Op("or", "", <<A, A>>), Op("cond", "", <<A, A, A>>),
+                      CallN(Nm("any"), <<Q>>), CallN(Nm("all"), <<Q>>), CallN(Nm("bool"), <<A>>), Op("sub", "", <<Q, I>>),
+                      Op("attr", "w", <<A>>), Lam("A")}
+                     \cup {CallN(Nm("isinstance"), <<A, Nm(ty)>>) : ty \in IsTypes}
+                     \cup {Op("walrus", n, <<A>>) : n \in W}
+                     \cup UserCalls
+                     \cup (IF HasFlag(h, "C") THEN {Op("attr", "u", <<Nm("o")>>)} ELSE {})
+                     \cup (IF incomp THEN {} ELSE
+                           {CallN(Nm(b), <<Comp("gen", El("A"), c)>>) : b \in {"any", "all"}, c \in Conds}))
 
 Tup(ts) == Op("tup", "", ts)
 Star(t) == Op("star", "", <<t>>)
 
 SProds(h) ==
-    LET EH == Hole("E", EDepth, h.p, h.w, h.a)
-        E0 == Hole("E", 0, h.p, <<>>, h.a)
+    LET EH(s) == Hole(s, EDepth, h.p, h.w, h.a)
+        I0 == Hole("I", 0, h.p, <<>>, h.a)
         W == Range(h.w)
         S1 == Hole("S", h.i - 1, h.p, h.w, h.a)
         lv == IF HasFlag(h, "f") THEN "i" ELSE "q"
         LoopBody == Hole("S", h.i - 1, IF Has(h.p, lv) THEN h.p ELSE h.p \o <<lv>>, h.w, IF HasFlag(h, "loop") THEN h.a ELSE h.a \o <<"loop">>)
         Pairs == {<<m, n>> \in W \X W : m # n}
-    IN  {Assign(Nm(n), EH) : n \in W}
-        \cup {Op("aug", o, <<Nm(n), EH>>) : o \in AugOps, n \in W}
-        \cup {Assign(Tup(<<Nm(pr[1]), Nm(pr[2])>>), EH) : pr \in Pairs}
-        \cup {Assign(Tup(<<Nm(pr[1]), Star(Nm(pr[2]))>>), EH) : pr \in Pairs}
-        \cup {Assign(Tup(<<Star(Nm(pr[1])), Nm(pr[2])>>), EH) : pr \in Pairs}
-        \cup {Assign(Tup(<<Tup(<<Nm(pr[1]), Nm(pr[2])>>), Nm(pr[1])>>), EH) : pr \in Pairs}
-        \cup {Assign(Op("sub", "", <<Nm(n), E0>>), EH) : n \in W}
-        \cup {Op("aug", "+", <<Op("sub", "", <<Nm(n), E0>>), EH>>) : n \in W}
-        \cup {Op("expr", "", <<Op("log", "", <<EH>>)>>), Op("raise", "ValueError", <<EH>>)}
-        \cup (IF HasFlag(h, "C") THEN {Assign(Op("attr", "w", <<Nm("o")>>), EH), Assign(Op("attr", "v", <<Nm("o")>>), EH),
-                                       Op("aug", "+", <<Op("attr", "w", <<Nm("o")>>), EH>>),
-                                       Op("aug", "+", <<Op("attr", "v", <<Nm("C")>>), EH>>),
-                                       Op("aug", "*", <<Op("attr", "v", <<Nm("o")>>), EH>>)} ELSE {})
-        \cup (IF HasFlag(h, "m") THEN {Assign(Op("attr", "w", <<Nm("self")>>), EH),
-                                       Op("aug", "+", <<Op("attr", "v", <<Nm("self")>>), EH>>)} ELSE {})
-        \cup (IF HasFlag(h, "ret") THEN {Ret(EH)} ELSE {})
+    IN  {Assign(Nm(n), EH("A")) : n \in W}
+        \cup {Op("aug", o, <<Nm(n), EH("I")>>) : o \in {"+", "-", "*"}, n \in W}
+        \cup {Op("aug", "+", <<Nm(n), EH("Q")>>) : n \in W}
+        \cup {Assign(Tup(<<Nm(pr[1]), Nm(pr[2])>>), EH("Q")) : pr \in Pairs}
+        \cup {Assign(Tup(<<Nm(pr[1]), Star(Nm(pr[2]))>>), EH("Q")) : pr \in Pairs}
+        \cup {Assign(Tup(<<Star(Nm(pr[1])), Nm(pr[2])>>), EH("Q")) : pr \in Pairs}
+        \cup {Assign(Tup(<<Tup(<<Nm(pr[1]), Nm(pr[2])>>), Nm(pr[1])>>), EH("Q")) : pr \in Pairs}
+        \cup {Assign(Op("sub", "", <<Nm(n), I0>>), EH("A")) : n \in W}
+        \cup {Op("aug", "+", <<Op("sub", "", <<Nm(n), I0>>), EH("I")>>) : n \in W}
+        \cup {Op("expr", "", <<Op("log", "", <<EH("A")>>)>>), Op("raise", "ValueError", <<EH("A")>>)}
+        \cup (IF HasFlag(h, "C") THEN {Assign(Op("attr", "w", <<Nm("o")>>), EH("A")), Assign(Op("attr", "v", <<Nm("o")>>), EH("A")),
+                                       Op("aug", "+", <<Op("attr", "w", <<Nm("o")>>), EH("I")>>),
+                                       Op("aug", "+", <<Op("attr", "v", <<Nm("C")>>), EH("I")>>),
+                                       Op("aug", "*", <<Op("attr", "v", <<Nm("o")>>), EH("I")>>)} ELSE {})
+        \cup (IF HasFlag(h, "m") THEN {Assign(Op("attr", "w", <<Nm("self")>>), EH("A")),
+                                       Op("aug", "+", <<Op("attr", "v", <<Nm("self")>>), EH("I")>>)} ELSE {})
+        \cup (IF HasFlag(h, "ret") THEN {Ret(EH("A"))} ELSE {})
         \cup (IF HasFlag(h, "loop") THEN {Leaf("break", "", 0), Leaf("continue", "", 0)} ELSE {})
-        \cup (IF h.i > 0 THEN {Op("if", "", <<EH, S1, S1>>), Op("if", "", <<EH, S1, PassS>>)} ELSE {})
-        \cup (IF h.i > 0 /\ (HasFlag(h, "f") \/ HasFlag(h, "h")) THEN {Op("for", "", <<Nm(lv), EH, LoopBody>>)} ELSE {})
+        \cup (IF h.i > 0 THEN {Op("if", "", <<EH("A"), S1, S1>>), Op("if", "", <<EH("A"), S1, PassS>>)} ELSE {})
+        \cup (IF h.i > 0 /\ (HasFlag(h, "f") \/ HasFlag(h, "h")) THEN {Op("for", "", <<Nm(lv), EH("Q"), LoopBody>>)} ELSE {})
 
 (* def h(p, q=<atom>): [decl]; <0..1 statements>; return <expr>      or      h = lambda p, q=<atom>: <expr> *)
 DHProds(h) ==
-    LET Dflt == Hole("E", 0, FNames, <<>>, <<"f">>)
+    LET Dflt == Hole("A", 0, FNames, <<>>, <<"f">>)
         Body(decl, k) ==
             LET w == IF decl = <<>> THEN <<"q", "p">> ELSE <<"q", decl[2]>>
                 SH == Hole("S", SDepth, HNames, w, <<"h", "ret">>)
-                RH == Hole("E", EDepth, HNames, w, <<"h", "ret">>)
+                RH == Hole("A", EDepth, HNames, w, <<"h", "ret">>)
             IN  Block((IF k = 1 THEN <<SH>> ELSE <<>>) \o <<Ret(RH)>>)
     IN  IF h.s = "DL"
-        THEN {Assign(Nm("h"), N("lambda", "", 0, <<"p", "q">>, <<>>, <<Hole("E", EDepth, HNames, <<>>, <<"lam">>), Dflt>>))}
+        THEN {Assign(Nm("h"), N("lambda", "", 0, <<"p", "q">>, <<>>, <<Hole("A", EDepth, HNames, <<>>, <<"lam">>), Dflt>>))}
         ELSE {N("def", "h", 0, <<"p", "q">>, decl, <<Body(decl, k), Dflt>>) :
                  decl \in {<<>>, <<"nonlocal", "x">>, <<"global", "g">>}, k \in {0, 1}}
 
 (* class C: v = <expr>; [u = <expr over v>]; [def __init__(self, p): self.w = <expr>]; def m(self, p): ...;   o = C(..) *)
 DCProds(h) ==
     LET hf == IF HasFlag(h, "H") THEN <<"H">> ELSE <<>>
-        CE(names) == Hole("E", EDepth, names, <<>>, <<"c">> \o hf)
+        CE(names) == Hole("A", EDepth, names, <<>>, <<"c">> \o hf)
         MFl == <<"m", "ret">> \o hf
-        Init == N("def", "__init__", 0, <<"self", "p">>, <<>>,
-                  <<Block(<<Assign(Op("attr", "w", <<Nm("self")>>), Hole("E", EDepth, MNames, <<"p">>, MFl))>>)>>)
+        InitD == N("def", "__init__", 0, <<"self", "p">>, <<>>,
+                   <<Block(<<Assign(Op("attr", "w", <<Nm("self")>>), Hole("A", EDepth, MNames, <<"p">>, MFl))>>)>>)
         Meth(decl, k) ==
             LET w == IF decl = <<>> THEN <<"p">> ELSE <<"p", decl[2]>>
             IN  N("def", "m", 0, <<"self", "p">>, decl,
-                  <<Block((IF k = 1 THEN <<Hole("S", 0, MNames, w, MFl)>> ELSE <<>>) \o <<Ret(Hole("E", EDepth, MNames, w, MFl))>>)>>)
+                  <<Block((IF k = 1 THEN <<Hole("S", 0, MNames, w, MFl)>> ELSE <<>>) \o <<Ret(Hole("A", EDepth, MNames, w, MFl))>>)>>)
         Cls(u, ini, decl, k) ==
             N("class", "C", 0, <<>>, <<>>,
               <<Block(<<Assign(Nm("v"), CE(FNames))>>
                       \o (IF u THEN <<Assign(Nm("u"), CE(FNames \o <<"v">>))>> ELSE <<>>)
-                      \o (IF ini THEN <<Init>> ELSE <<>>)
+                      \o (IF ini THEN <<InitD>> ELSE <<>>)
                       \o <<Meth(decl, k)>>)>>)
-        Mk(ini) == Assign(Nm("o"), CallN(Nm("C"), IF ini THEN <<Hole("E", 0, FNames, <<>>, <<"f">>)>> ELSE <<>>))
+        Mk(ini) == Assign(Nm("o"), CallN(Nm("C"), IF ini THEN <<Hole("A", 0, FNames, <<>>, <<"f">>)>> ELSE <<>>))
     IN  {Block(<<Cls(u, ini, decl, k), Mk(ini)>>) :
             u \in BOOLEAN, ini \in BOOLEAN, decl \in {<<>>, <<"nonlocal", "x">>}, k \in {0, 1}}
 
-Prods(h) == CASE h.s = "E" -> EProds(h)
+Prods(h) == CASE h.s \in {"I", "Q", "A"} -> EProds(h)
               [] h.s = "S" -> SProds(h)
               [] h.s \in {"DH", "DL"} -> DHProds(h)
               [] h.s = "DC" -> DCProds(h)
@@ -216,15 +246,16 @@ Skeleton(shape, ns) ==
 RECURSIVE HasHole(_)
 HasHole(n) == IF n.t = "hole" THEN TRUE ELSE \E k \in 1..Len(n.a) : HasHole(n.a[k])
 
-RECURSIVE FirstHole(_)
-FirstHole(n) == IF n.t = "hole" THEN n
-                ELSE LET k == CHOOSE j \in 1..Len(n.a) : HasHole(n.a[j]) /\ \A m \in 1..(j - 1) : ~HasHole(n.a[m])
-                     IN  FirstHole(n.a[k])
+(* path (child indexes) to the leftmost hole; <<>> when n itself is the hole *)
+RECURSIVE HolePath(_)
+HolePath(n) == IF n.t = "hole" THEN <<>>
+               ELSE LET k == CHOOSE j \in 1..Len(n.a) : HasHole(n.a[j]) /\ \A m \in 1..(j - 1) : ~HasHole(n.a[m])
+                    IN  <<k>> \o HolePath(n.a[k])
+RECURSIVE NodeAt(_, _, _)
+NodeAt(n, path, k) == IF k > Len(path) THEN n ELSE NodeAt(n.a[path[k]], path, k + 1)
+RECURSIVE FillAt(_, _, _, _)
+FillAt(n, path, k, sub) == IF k > Len(path) THEN sub ELSE [n EXCEPT !.a[path[k]] = FillAt(n.a[path[k]], path, k + 1, sub)]
 
-RECURSIVE FillTree(_, _)
-FillTree(n, sub) == IF n.t = "hole" THEN sub
-                ELSE LET k == CHOOSE j \in 1..Len(n.a) : HasHole(n.a[j]) /\ \A m \in 1..(j - 1) : ~HasHole(n.a[m])
-                     IN  [n EXCEPT !.a[k] = FillTree(n.a[k], sub)]
 
 (* structural hash (sampling of completed programs) *)
 Strs == <<"", "name", "int", "str", "none", "true", "pass", "block", "assign", "return", "call", "hole", "bin", "not", "neg",
@@ -955,7 +986,8 @@ Init == /\ prog \in {Skeleton(sh, ns) : sh \in Shapes, ns \in 1..MaxS}
 
 Fill == /\ phase = "gen"
         /\ HasHole(prog)
-        /\ \E sub \in Prods(FirstHole(prog)) : prog' = FillTree(prog, sub)
+        /\ LET path == HolePath(prog)
+           IN  \E sub \in Prods(NodeAt(prog, path, 1)) : prog' = FillAt(prog, path, 1, sub)
         /\ UNCHANGED <<phase, ms, hist, ncall>>
 
 (* the module body: g = 0; def f(a, b): ... *)
